@@ -231,4 +231,74 @@ PROPERTIES = {
                          "graphs_with_self_loops": 100000, "graphs_with_16_hop_chains": 100000},
         },
     },
+    "C05": {
+        "level": "exploration",
+        "rule": ("1..4 async modules x 1..8 tasks x up to 30 steps of generated timer scripts: sleep, sleep_until (also in the past), timeout over "
+                 "{sleep, yield_now, pending, far-future sleep}, biased select! of two sleeps (one possibly far future), poll-once-then-drop, pinned sleep "
+                 "with reset, interval sections with Burst / Delay / Skip and late ticks, recv from a channel fed at generated instants; durations from a small "
+                 "set so that deadlines collide across tasks and cancelled timers leave empty slots in front of live ones. Every step logs (module, task, "
+                 "step, SimTime::now(), outcome); oracle = reference interpreter in virtual time: completion time equal (never earlier, never later), outcome "
+                 "equal, every step completes, run() Ok, run does not end before the last deadline; hook H5: after every module event a waiting timer has a "
+                 "wake-up scheduled at or before its deadline. Non-trivial = case in which a module event ended with an empty slot in front of a live timer; "
+                 "distinct = hash of the case."),
+        "assumptions": ["interval sections only contain waits that are multiples of 10 ms with periods >= 20 ms, so a tick is on time or late by >= 10 ms "
+                        "(outside the implementation's 5 ms grace window, on which the reference therefore does not depend)",
+                        "timeout(0, f) with f completing on its second poll inside the same instant is not generated (the two clauses of the statement "
+                        "disagree on it; a false alarm of an earlier version of this monitor)"],
+        "stages": [
+            native("scripts", "desmon", "c05", tiers=QT, timeout={"quick": 900, "thorough": 5400}),
+            {"name": "miri", "crate": "desmon", "cmd": "c05", "mode": "miri", "tiers": T, "shards": {"thorough": 16},
+             "args": {"thorough": ["--budget", "6", "steps=8"]}, "timeout": {"thorough": 5400}, "counter_prefix": "miri_"},
+        ],
+        "floor": {
+            "quick": {"timer_steps_checked": 2000000, "module_events_with_empty_slots_in_front_of_live_timers": 100000, "steps_timeout": 100000,
+                      "steps_select": 100000, "steps_reset": 50000, "steps_poll_then_drop": 50000, "steps_interval_tick": 300000, "steps_recv": 100000},
+            "thorough": {"timer_steps_checked": 40000000, "module_events_with_empty_slots_in_front_of_live_timers": 2000000, "miri_timer_steps_checked": 200},
+        },
+    },
+    "C06": {
+        "level": "exploration",
+        "rule": ("1..3 async modules with 1..4 triggers each (inside at_sim_start, or a message at a generated instant; several triggers may share an instant): "
+                 "spawn bursts of N tasks that yield k times and optionally sleep to a common deadline (timer wake-up of N tasks at once), notify_waiters "
+                 "broadcasts to N waiting tasks, wake chains of depth <= 2000 through oneshot / mpsc / semaphore / join handles, one task draining up to 10000 "
+                 "channel items in one instant (tokio coop budget); N in {1,2,60,61,62,122,123,200,1000,5000}; each with tokio::spawn and with spawn_local "
+                 "(every tenth case: spawn_local work needing more than one LocalSet turn of 61 polls). Every task logs SimTime::now() after each await; the "
+                 "instant its condition became true is known by construction; a later sentinel event of the module makes stranded work visible. Oracle: "
+                 "logged now == enabling instant for every wake-up, every task finished at the end. Non-trivial = case with an instant needing > 61 polls; "
+                 "distinct = hash of the case."),
+        "assumptions": [],
+        "stages": [
+            native("storms", "desmon", "c06", tiers=QT, timeout={"quick": 900, "thorough": 5400}),
+        ],
+        "floor": {
+            "quick": {"wakeups_observed": 5000000, "instants_needing_more_than_61_polls": 3000, "instants_needing_more_than_122_polls": 2000,
+                      "scenarios_with_spawn_local": 1500, "spawn_local_over_budget_cases": 300, "scenarios_wake_chain": 1500,
+                      "scenarios_notify_broadcast": 500, "scenarios_channel_drain": 500, "scenarios_spawn_burst": 1500},
+            "thorough": {"wakeups_observed": 100000000, "instants_needing_more_than_61_polls": 60000, "instants_needing_more_than_122_polls": 40000,
+                         "scenarios_with_spawn_local": 30000, "spawn_local_over_budget_cases": 6000},
+        },
+    },
+    "C09": {
+        "level": "fault_enumeration",
+        "rule": ("root p0 with 1..3 victim children and a receiver p1; per victim 0..3 shutdown / restart cycles plus requests that arrive while it is down, "
+                 "requested from a message handler or from a task, restart never / in d / at t, two victims sharing the same instants; ticker task, "
+                 "self-message beat chain, data messages over a delayed channel (also in flight at the request / restart instant), messages passing through a "
+                 "transit gate of the victim on their way to p1 (sent while up, at the gate while down), the parent probing child() periodically; every fifth "
+                 "case places arrivals exactly on request / restart instants. All callbacks log into one global sequence. Oracle = evaluation of the statement: "
+                 "down intervals (request, restart); mandatory entries (start stages once, in order, at exactly the restart time; exactly one reset per "
+                 "effective shutdown; ticks / beats / data of the live incarnation at their exact times; transit deliveries iff the victim is up when the "
+                 "message is at its gate; probe results), nothing else may be logged, nothing of the victim between its reset and its restart, entries on a "
+                 "boundary instant are left open. Non-trivial = case with at least one effective shutdown; distinct = hash of the case."),
+        "assumptions": ["events that fall exactly on a shutdown-request or restart instant of the same victim are not judged (the statement leaves their order open)"],
+        "stages": [
+            native("scenarios", "desmon", "c09", tiers=QT, timeout={"quick": 900, "thorough": 5400}),
+        ],
+        "floor": {
+            "quick": {"shutdowns_effective": 20000, "restarts": 15000, "data_messages_due_while_down": 50000, "transit_messages_due_while_down": 50000,
+                      "transit_messages_in_flight_at_shutdown": 5000, "shutdown_requests_from_tasks": 10000, "shutdown_requests_from_handlers": 10000,
+                      "cases_with_deliberate_coincidences": 2000, "log_entries_checked": 5000000},
+            "thorough": {"shutdowns_effective": 400000, "restarts": 300000, "data_messages_due_while_down": 1000000,
+                         "transit_messages_due_while_down": 1000000, "transit_messages_in_flight_at_shutdown": 100000, "log_entries_checked": 100000000},
+        },
+    },
 }
